@@ -93,6 +93,12 @@ func runC18(c *Ctx) error {
 				params[j], params[x] = params[x], params[j]
 			}
 			add(&walkCall{Entry: "url", Rules: map[string]string{"k": tag}, Src: "http://h.example/a/b?" + strings.Join(params, "&")}, "k", "url-"+enc)
+			// a bare key (no '=') after a parameter that has a value: the value is empty, every rule is skipped
+			bare := &walkCall{Entry: "url", Rules: map[string]string{"k": tag}, Src: "http://h.example/a/b?z=" + s + "&k&y=1"}
+			term, desc := bare.caseTerm([]string{"SNil", "SNoPanic"})
+			desc["presentation"] = "url-bare-key"
+			w.Add(term, desc, "url-bare:"+sp.name)
+			w.Count("presentation.url-bare")
 		}
 	}
 	// known findings replayed on the implementation
